@@ -1,0 +1,6 @@
+//go:build !verif
+
+package rib
+
+// verifPoint is a yield point used only by builds with the "verif" tag.
+func verifPoint(string) {}
